@@ -50,12 +50,13 @@ def stream(ctx, n, so, to, tts, extra, aged):
     ctx.sample(dict(stream=s.label, first_lines=s.lines[:8]))
 
 
-def dyn_stream(ctx, n, so, to, tts):
+def dyn_stream(ctx, n, so, to, tts, P='C11'):
     """`BDD.copy` into a target in which dynamic reordering is ENABLED and the threshold is
     reached while the copy runs: the copy runs with requests disabled in the TARGET (the level
     map is computed once), so no reordering is served inside it, the signal does not escape,
     the threshold is restored, and the copy denotes the same function by name; the target
-    holds sub-functions already (what a served reordering would keep and re-use)"""
+    holds sub-functions already (what a served reordering would keep and re-use); `P` is the
+    prefix of the violation keys (the stream is also used by C06)"""
     rng = ctx.rng
     s = ctx.session(f'copy into a reordering target n={n} src={so} tgt={to}')
     src = Mgr(ctx, None, n, so, m=0, session=s)
@@ -85,18 +86,18 @@ def dyn_stream(ctx, n, so, to, tts):
             ctx.count('copy-into-reordering-target')
             tu = t if sign == 1 else T.neg(t, n)
             if r is None:
-                ctx.violation('C11:rejected', 'copy into a target with reordering enabled was rejected', src.case())
+                ctx.violation(P + ':rejected', 'copy into a target with reordering enabled was rejected', src.case())
                 continue
             if abs(r) not in tgt.b._succ or oracle.tt_fast(tgt.b, r, names) != tu:
-                ctx.violation('C11:wrong-function',
+                ctx.violation(P + ':wrong-function',
                               f'copy of {tu:#x} into a target with reordering enabled (threshold {k}) denotes '
                               'another function', src.case())
             if tgt.b._last_len != k:
-                ctx.violation('C11:threshold', f'threshold {k} became {tgt.b._last_len} during the copy', src.case())
+                ctx.violation(P + ':threshold', f'threshold {k} became {tgt.b._last_len} during the copy', src.case())
         s.op(1, 'configure', False)
         for r0 in kept:
             s.op(1, 'decref', r0)
-    tgt.check_table('C11:target-table', 'target not canonical')
+    tgt.check_table(P + ':target-table', 'target not canonical')
     ctx.sample(dict(stream=s.label, first_lines=s.lines[:8]))
 
 
